@@ -6,7 +6,13 @@ the number of query points is; any internal blocking, chunking or batching of
 the query points has its seams at some n. Seven build points far apart on a
 meridian; query point q sits next to build point q mod 7 (every fifth one
 is remote and pairs with nothing), so a pair attributed to a neighbouring
-query index names the wrong build point and is seen at once."""
+query index names the wrong build point and is seen at once. With the small
+radius a query point has one partner or none; with the large one it also
+reaches the neighbours of its build point, so that 0, 2 or 3 partners
+alternate along the query array (seams of anything that flattens or chunks
+the jagged result by counts)."""
+import itertools
+
 import numpy as np
 
 from checks import c06_model as model
@@ -15,14 +21,17 @@ N_QUICK, N_THOROUGH = 2100, 8200
 RULE = ("Many part: 7 build points 10 deg apart on a meridian, query point q "
         "next to build point q mod 7 (remote if q mod 5 = 0), one query() "
         "call with the first n query points for EVERY n in 1..%d (thorough: "
-        "1..%d) x (default, haversine/Ball; thorough: all 9 configurations) "
-        "x shuffle off / reversal x with and without distances, r = 5 km."
+        "1..%d) x with and without distances x {(default, haversine/Ball) "
+        "x shuffle off / reversal at r = 5 km (0 or 1 partner per query "
+        "point), default x reversal at r = 1200 km (0, 2 or 3 partners)}; "
+        "thorough: all 9 configurations x shuffle off / reversal at 5 km, "
+        "(default, haversine/Ball) x reversal at 1200 km."
         % (N_QUICK, N_THOROUGH))
 
 BLAT = -30.0 + 10.0 * np.arange(7)
 BLON = np.full(7, 12.5)
-R = 5
-NSHARDS = 16
+RADII = (5, 1200)
+NSHARDS = 48
 
 
 def query_points(n):
@@ -41,13 +50,13 @@ class Many:
         self.qlat, self.qlon = query_points(nmax)
         self.dist = model.distance_matrices(BLAT, BLON, self.qlat, self.qlon)
         self.pairs = {}
-        for metric, d in self.dist.items():
-            bi, qi = np.nonzero(d <= model.radius_km(R))
+        for (metric, d), r in itertools.product(self.dist.items(), RADII):
+            bi, qi = np.nonzero(d <= model.radius_km(r))
             order = np.argsort(qi, kind="stable")
-            self.pairs[metric] = (qi[order], bi[order], d[bi, qi][order])
+            self.pairs[metric, r] = (qi[order], bi[order], d[bi, qi][order])
 
-    def expected(self, metric, n):
-        qi, bi, d = self.pairs[metric]
+    def expected(self, metric, r, n):
+        qi, bi, d = self.pairs[metric, r]
         k = np.searchsorted(qi, n)
         return {(int(b), int(q)): float(x)
                 for b, q, x in zip(bi[:k], qi[:k], d[:k])}
@@ -64,28 +73,35 @@ def get(nmax):
 
 def lattice_errors():
     m = get(N_QUICK)
-    return ["distance in the don't-care band: many %s" % metric
-            for metric, d in m.dist.items()
-            if model.in_band(d, model.radius_km(R))]
+    return ["distance in the don't-care band: many %s r=%r" % (metric, r)
+            for (metric, d), r in itertools.product(m.dist.items(), RADII)
+            if model.in_band(d, model.radius_km(r))]
 
 
-def configurations(tier):
+def calls(tier):
+    """(configuration, reversal imposed, radius) of the indexes queried for
+    every n. The large radius returns three times the pairs: it runs with
+    the reversal (the index translation) only."""
+    default, haversine = (None, None, None), ("haversine", "Ball", None)
     if tier == "quick":
-        return [(None, None, None), ("haversine", "Ball", None)]
-    return model.CONFIGURATIONS
+        return [(cfg, reverse, RADII[0]) for cfg in (default, haversine)
+                for reverse in (False, True)] + [(default, True, RADII[1])]
+    return [(cfg, reverse, RADII[0]) for cfg in model.CONFIGURATIONS
+            for reverse in (False, True)] + \
+        [(cfg, True, RADII[1]) for cfg in (default, haversine)]
 
 
 def shards(tier, seed):
     return [("many", tier, k) for k in range(NSHARDS)]
 
 
-def run_case(seam, m, cfg, reverse, n):
+def run_case(seam, m, cfg, reverse, n, r):
     metric, tree, leaf = cfg
     perm = np.arange(7)[::-1].copy() if reverse else None
     index = model.make_index(seam, BLAT, BLON, perm, metric, tree, leaf)
-    exp = m.expected(metric or "minkowski", n)
+    exp = m.expected(metric or "minkowski", r, n)
     return exp, [model.evaluate(index, perm, exp, metric or "minkowski",
-                                m.qlat[:n], m.qlon[:n], R, wd)
+                                m.qlat[:n], m.qlon[:n], r, wd)
                  for wd in (True, False)]
 
 
@@ -95,28 +111,28 @@ def run(res, seam, shard, replay):
     m = get(nmax)
     # interleaved so that every shard has short and long calls
     for n in range(1 + k, nmax + 1, NSHARDS):
-        for cfg in configurations(tier):
-            for reverse in (False, True):
-                case = dict(part="many", metric=cfg[0], tree=cfg[1],
-                            leaf=cfg[2], reverse=reverse, n=n, tier=tier)
-                try:
-                    exp, verdicts = run_case(seam, m, cfg, reverse, n)
-                except model.SeamNotHit as e:
-                    res.error(str(e))
-                    return
-                except Exception as e:
-                    res.violation("build/exception/" + type(e).__name__,
-                                  case, None, repr(e)[:200])
-                    continue
-                res.count("indexes_built")
-                res.maximum("query_points_in_one_call", n)
-                for (bad, _), wd in zip(verdicts, (True, False)):
-                    res.case(nontrivial=bool(exp))
-                    if bad is not None:
-                        bad = ("many/" + bad[0], _short(bad[1]),
-                               _short(bad[2]), bad[3])
-                        model.report(res, replay, bad,
-                                     dict(case, return_distance=wd))
+        for cfg, reverse, r in calls(tier):
+            case = dict(part="many", metric=cfg[0], tree=cfg[1],
+                        leaf=cfg[2], reverse=reverse, n=n, r=r, tier=tier)
+            try:
+                exp, verdicts = run_case(seam, m, cfg, reverse, n, r)
+            except model.SeamNotHit as e:
+                res.error(str(e))
+                return
+            except Exception as e:
+                model.reraise_watchdog(e)
+                res.violation("build/exception/" + type(e).__name__,
+                              case, None, repr(e)[:200])
+                continue
+            res.count("indexes_built")
+            res.maximum("query_points_in_one_call", n)
+            for (bad, _), wd in zip(verdicts, (True, False)):
+                res.case(nontrivial=bool(exp))
+                if bad is not None:
+                    bad = ("many/" + bad[0], _short(bad[1]),
+                           _short(bad[2]), bad[3])
+                    model.report(res, replay, bad,
+                                 dict(case, return_distance=wd))
     res.sample(dict(case, expected_pairs=len(exp)))
 
 
@@ -131,7 +147,7 @@ def replay(seam, case):
     m = get(N_QUICK if case["tier"] == "quick" else N_THOROUGH)
     _, verdicts = run_case(seam, m,
                            (case["metric"], case["tree"], case["leaf"]),
-                           case["reverse"], case["n"])
+                           case["reverse"], case["n"], case["r"])
     bad = verdicts[0 if case["return_distance"] else 1][0]
     if bad is None:
         return None
